@@ -214,7 +214,7 @@ def c18_5(ctx):
         for node in ast.walk(m.tree):
             if isinstance(node, ast.Attribute):
                 t = df.dotted(node) or ""
-                parts = t.split(".")
+                parts = [p_[:-2] if p_.endswith("()") else p_ for p_ in t.split(".")]      # x.keys.private(1)._generator reads keys.private
                 for base in ("_network", "network", "override_network"):
                     if base in parts:
                         i = parts.index(base)
